@@ -267,7 +267,38 @@ func RunProperty(prog *Program, prop, tier string, seed int, verifDir string, st
 	return 0
 }
 
+// ruleCache: obligations of a rule on a program (rules are deterministic functions of the loaded program; the same rule
+// serves several properties when `-prop all` runs them on one load). Stats are replayed with the cached obligations.
+type ruleCacheEntry struct {
+	obs   []Obligation
+	stats map[string]int
+}
+
+var ruleCache = map[*Program]map[string]ruleCacheEntry{}
+
 func safeRun(r *Rule, ctx *Ctx) (obs []Obligation) {
+	if m := ruleCache[ctx.Program]; m != nil {
+		if e, ok := m[r.Name+"/"+ctx.Tier]; ok {
+			for k, v := range e.stats {
+				ctx.Stats[k] = v
+			}
+			cp := make([]Obligation, len(e.obs))
+			copy(cp, e.obs)
+			return cp
+		}
+	}
+	defer func() {
+		if ruleCache[ctx.Program] == nil {
+			ruleCache[ctx.Program] = map[string]ruleCacheEntry{}
+		}
+		st := map[string]int{}
+		for k, v := range ctx.Stats {
+			st[k] = v
+		}
+		cp := make([]Obligation, len(obs))
+		copy(cp, obs)
+		ruleCache[ctx.Program][r.Name+"/"+ctx.Tier] = ruleCacheEntry{cp, st}
+	}()
 	defer func() {
 		if e := recover(); e != nil {
 			obs = append(obs, Obligation{Rule: r.Name, Key: r.Name + ":panic", Props: r.Props, Status: Incomplete,
